@@ -137,6 +137,20 @@ func c17Mutate(r *rand.Rand, text string) (string, string) {
 	return string(b), kind
 }
 
+// string literals with every class of escape, well-formed and ill-formed, in both quote styles
+func init() {
+	for _, lit := range []string{
+		`"it\'s"`, `'say \"hi\"'`, `'it\'s'`, `"say \"hi\""`, `"\c"`, `'\c'`, `"\x4"`, `"\x41"`, `"\xg1"`, `"\u12"`, `"\u00e9"`,
+		`"\ud800"`, `"\udfff"`, `"\U0001F600"`, `"\U00110000"`, `"\U0000d800"`, `"\400"`, `"\377"`, `"\101"`, `"\18"`, `"\1"`,
+		`"\a\b\f\n\r\t\v\\"`, `"tail\"`, `'tail\'`, `"\ "`, `"\/"`, `"\0"`, `"\e"`, `"\N"`, `"\X41"`,
+	} {
+		c17Targeted = append(c17Targeted,
+			`rule R "d" { when true then F.S1 = `+lit+`; }`,
+			`rule R "d" { when F.S1 == `+lit+` then F.A = 1; }`,
+			`rule R "d" { when true then F.S1 = T.Cat("a", `+lit+`, "b"); }`)
+	}
+}
+
 var c17Targeted = []string{
 	`rule when "d" { when true then F.A = 1; }`,
 	`rule R "d" { when then F.A = 1; }`,
